@@ -59,7 +59,9 @@ var (
 		// process may well use; one router refuses to hold both spellings
 		"/b/{-id}", "/d/{x}/{-y:\\d+}", "/d/{-x}/{y:\\d+}", "/h/{-n}", "/i/{y:\\d+}/t", "/i/{-y:\\d+}/t",
 		// a route with more parameters than usual and a catch-all: a near miss of the first binds and gives up nine names
-		longRoute, "/{path}"}
+		longRoute, "/{path}",
+		// two routes whose texts agree once the braces are taken away: the token ends in another place
+		"/j/{y:\\d+}.t", "/jj/{y:\\d+.t}"}
 	methodSets = [][]string{{"GET"}, {"POST"}, {"GET", "POST"}, {"DELETE", "PUT"}, {"PATCH"}, {"CONNECT", "GET"}, nil, {"PUT"}, {"DELETE"}, {"GET", "DELETE", "PATCH"}, {"POST", "CONNECT"}}
 	domains    = []string{"a.com", "{sub}.b.com", "c.io", "d.net", "{n:\\d+}.e.org", "f.com", "{-sub}.b.com", "{-n:\\d+}.e.org"}
 )
@@ -121,6 +123,10 @@ func witness(p string, v string) (string, map[string]string) {
 		return "/i/" + v + "/t", map[string]string{"y": v}
 	case "/i/{-y:\\d+}/t":
 		return "/i/" + v + "/t", map[string]string{}
+	case "/j/{y:\\d+}.t":
+		return "/j/" + v + ".t", map[string]string{"y": v}
+	case "/jj/{y:\\d+.t}":
+		return "/jj/" + v + "xt", map[string]string{"y": v + "xt"}
 	case longRoute:
 		ps := map[string]string{}
 		path := "/l"
